@@ -48,7 +48,7 @@ def run(tier, seed, replay=None):
             only += "+" + p["second"]
         args += ["-only", only]
     elif tier == "quick":
-        args += ["-max", "24"]
+        args += ["-max", "16"]
     else:
         args += ["-second"]
     res = vlib.harness_json(vd, args, wd, timeout=6000, name="vd_c04")
@@ -60,6 +60,22 @@ def run(tier, seed, replay=None):
             raise vlib.Inconclusive("; ".join(res["inconclusive"][:6]))
         v.notes.append("inconclusive experiments: " + "; ".join(res["inconclusive"][:6]))
     ex = res.get("extra", {})
+    # ---- (B2) the file-step events of every crash run, validated by TLC (crash-aware: a "crash" line per dead process
+    # releases its lock and drops its unwritten update, the file system keeps its content)
+    tv = {}
+    for key, spec, cfgname, fkey, nkey, post in (("status_file_steps", "StatusFileTrace", "StatusFileTraceCrash.cfg", "norm_file", "norm_events", "TraceAccepted"),
+                                                 ("unit_rewrites", "WorkUnitTrace", "WorkUnitTraceCrash.cfg", "unit_trace_file", "unit_trace_events", "UnitTraceAccepted")):
+        if not ex.get(nkey):
+            continue
+        t = vlib.tlc(spec, cfgname, wd, timeout=2400, workers=1, files=[ex[fkey]], heap="6g")
+        tv[key] = {"events": ex[nkey], "accepted": t.ok, "depth": t.depth, "wall_s": round(t.wall, 1)}
+        if not t.ok:
+            if "Postcondition " + post in t.output or t.violated:
+                if not [x for x in res["violations"] if "status-file" in x["sig"]]:
+                    v.violation("C04:%s-trace-rejected" % key, "TLC rejected the %s of the crash runs after about %d steps: not a behaviour of %s with crashes"
+                                % (key.replace("_", " "), t.depth, spec), {"trace": ex[fkey], "seed": seed})
+            else:
+                raise vlib.Inconclusive("TLC failed on the crash traces (%s, exit %s):\n%s" % (spec, t.exit, t.output[-2000:]))
     cov = {
         "evaluations": res["evaluations"], "distinct_nontrivial": res["distinct"],
         "rule": "one evaluation = one crash experiment on the real receptor binary: fresh daemon with VERIF_CRASH_AT=<point>#k for role "
@@ -73,11 +89,13 @@ def run(tier, seed, replay=None):
         "states": r.distinct, "transitions": r.generated,
         "tlc": {"spec": "WorkUnit.tla", "cfg": cfg, "generated": r.generated, "distinct": r.distinct, "depth": r.depth, "wall_s": round(r.wall, 1)},
         "variants_violated": variants, "witnesses": wit, "counters": res["counters"],
+        "traces_validated_against_impl": ex.get("status_files", 0) if tv.get("status_file_steps", {}).get("accepted") else 0, "crash_trace_validation": tv,
     }
     return v.finish("fault_enumeration", cov, assumptions=[
         "crash = SIGKILL of one process (daemon or runner) at a hook-defined point between two file-system operations; the file system itself is not "
         "crashed (no lost page cache, no reordering of completed system calls)",
-        "local command units only (payload = bash script on stdin); remote units between two daemons are not covered",
+        "workloads: local command units {finish, long-running, cancel, release} and a remote unit submitted on n1 and executed by a second real daemon n2 "
+        "(crash points of n1 enumerated; n2 killed while the unit runs in one scripted scenario); crash points inside remote_work.go itself do not exist (file not owned)",
         "crash points inside os/exec, the Go runtime and the payload are not enumerated; k-th hit of a point is per process",
         "recovery is given 15 s to list an acknowledged unit and 90 s to follow a running unit to a final state; deadline hits without a definite wrong value are inconclusive",
     ])
